@@ -258,8 +258,16 @@ def gen_patterns(rng, shape):
         base = sorted({(float(rng.randint(0, 12)) * 0.5, float(rng.randint(60, 64))) for _ in range(rng.randint(1, 4))})
         return [occ(base, 8.0 * k, drop=(rng.random() < 0.2)) for k in range(rng.randint(1, 3))]
     ref = [pattern() for _ in range(rng.randint(1, 3))]
+    if rng.random() < 0.3:                         # a unison doubling: the same (onset, midi) listed twice in an occurrence
+        occ0 = ref[0][rng.randrange(len(ref[0]))]
+        occ0.insert(rng.randrange(len(occ0) + 1), occ0[rng.randrange(len(occ0))])
     if shape == "identical":
         return ref, [[list(o) for o in p] for p in ref]
+    if shape == "unison":
+        # reference occurrences that list one note twice; the estimate has the same notes once
+        est = [[sorted(set(o)) for o in p] for p in ref]
+        ref = [[list(o) + [o[rng.randrange(len(o))]] for o in p] for p in ref]
+        return ref, est
     est = []
     for p in ref:
         if rng.random() < 0.6:
@@ -415,7 +423,7 @@ def catalogue(me):
         ("pattern.first_n_three_layer_P", p.first_n_three_layer_P, ident, [{}, {"n": 1}]),
         ("pattern.first_n_target_proportion_R", p.first_n_target_proportion_R, ident, [{}, {"n": 1}]),
     ], kw_pool={"tol": 0.25, "n": 1, "similarity_metric": "cardinality_score"},
-        shapes=["random", "random", "identical", "duplicates", "empty_est", "empty_ref", "both_empty"])
+        shapes=["random", "random", "identical", "duplicates", "unison", "empty_est", "empty_ref", "both_empty"])
     h = me.hierarchy
     hiv = lambda a: (a[0], a[2])  # noqa
     T["hierarchy"] = Task("hierarchy", gen_hierarchy, [
